@@ -18,6 +18,12 @@ def cases(tier):
                 for (x, y) in ((a, b), (b, a)) if a != b else ((a, b),):
                     out.append(Case('c13.%s.%s_%s.n%d' % (name, x, y, n0), 'sched.c', {'VF_CONT': cont, 'VF_OP1': OPS[x], 'VF_OP2': OPS[y], 'VF_N0': n0}, unwind=n0 + 6, checks='func',
                                     timeout=600, funcs=FUNCS[cont], desc='%s: T1=%s overlapped by T2=%s at a solver-chosen scheduling point, %d initial elements; arguments symbolic' % (name, x, y, n0)))
+    # bounded thread-safe list, full or one below full: refused additions (ENOBUFS) overlapped by removals/additions
+    for (a, b) in (('ADDLAST', 'POPFIRST'), ('ADDLAST', 'ADDLAST'), ('ADDAT', 'REMOVEAT'), ('ADDFIRST', 'CLEAR')):
+        for (n0, mx) in ((2, 2), (1, 2)):
+            for (x, y) in ((a, b), (b, a)) if a != b else ((a, b),):
+                out.append(Case('c13.list.%s_%s.n%d.max%d' % (x, y, n0, mx), 'sched.c', {'VF_CONT': 2, 'VF_OP1': OPS[x], 'VF_OP2': OPS[y], 'VF_N0': n0, 'VF_MAXSZ': mx}, unwind=n0 + 6, checks='func',
+                                timeout=600, funcs=FUNCS[2], desc='bounded list (limit %d, %d elements): T1=%s overlapped by T2=%s at a solver-chosen scheduling point; arguments symbolic' % (mx, n0, x, y)))
     MOPS = {'PUT': 1, 'GET': 2, 'REMOVE': 3, 'SIZE': 4, 'CLEAR': 5}
     MPAIRS = [('PUT', 'GET'), ('PUT', 'PUT'), ('PUT', 'REMOVE'), ('PUT', 'SIZE'), ('PUT', 'CLEAR'), ('REMOVE', 'GET'), ('REMOVE', 'REMOVE'), ('CLEAR', 'GET')]
     MF = {3: ['qlisttbl_put', 'qlisttbl_putstr', 'qlisttbl_getstr', 'qlisttbl_remove', 'qlisttbl_getnext', 'qlisttbl_clear', 'qlisttbl_lock', 'qlisttbl_unlock'],
@@ -43,6 +49,10 @@ def cases(tier):
     for w in ((3,) if tier == 'quick' else (3, 40)):
         out.append(Case('c13.mx.contended.w%d' % w, 'mutex.c', {'QLIBC_VERIF_MAX_MUTEX_LOCK_WAIT': w}, unwind=w + 3, checks='func', timeout=600, funcs=['Q_MUTEX_NEW', 'Q_MUTEX_ENTER', 'Q_MUTEX_LEAVE', 'Q_MUTEX_DESTROY'], unwind_owner='C13',
                         desc='Q_MUTEX_ENTER/LEAVE with the mutex held by another logical thread at depth 0..2 that lets go after a solver-chosen number (0..2*WAIT+1) of failed attempts; spin bound scaled to %d by the guarded hook; 1..3 nested enters' % w))
+    for c in out:
+        # a call that returns with the container lock still held blocks the other thread for ever: no one-at-a-time ordering explains a call
+        # that never returns, so the lock-balance assertion of the interleaving harnesses is C13's obligation as well as C14's
+        c.co_owned = r'^C14\.(sched|seq)\.lock\b'
     return out
 
 
